@@ -342,3 +342,20 @@ Definition check_case_c12 (sys_reqs : list pos) (sys_idx : list nat) (plugins : 
          && forallb (fun m => Z.eqb (reported_dic (fst m)) (snd m)
                               && (is_oov (fst m) || (dic_of (fst m) <? N.of_nat (length (s_words s))))) mobs
      end.
+
+(* ---------- tokens made by path rewrite plugins ----------
+   concat_oov_nodes (JoinKatakanaOovPlugin): the joined node carries the maximum of its parts' word ids -- OOV ids have
+   dictionary number 15, the largest, so the node is OOV as soon as one part is -- and (dic, MAX_WORD) of the largest
+   dictionary otherwise;  concat_nodes (JoinNumericPlugin): WordId::INVALID, which is an OOV id. *)
+Definition join_oov_wid (ws : list N) : N :=
+  let m := fold_left N.max ws 0 in
+  if is_oov m then m else stamp (dic_of m) LM.MAX_WORD.
+
+(* a merged token: (its word id, the word ids of the tokens it was made from) *)
+Definition check_merged (m : N * list N) : bool :=
+  ((fst m =? join_oov_wid (snd m)) || (fst m =? LF.JOINED_INVALID))
+  && (negb (existsb is_oov (snd m)) || is_oov (fst m)).
+
+Definition check_case_c12m (sys_reqs : list pos) (sys_idx : list nat) (plugins : list (pos * bool))
+           (us : list user_src) (loaded : bool) (obs : list obs_t) (mobs : list (N * Z)) (merged : list (N * list N)) : bool :=
+  check_case_c12 sys_reqs sys_idx plugins us loaded obs mobs && forallb check_merged merged.
